@@ -152,7 +152,7 @@ Proof.
   - intros [(-> & H2 & H3)|[(-> & H2 & H3)|(-> & -> & H3)]]; (split; [lia|repeat constructor; lia]).
 Qed.
 (* non-vacuity: the characterisation admits what it should and excludes what it should *)
-Example dotted_quad_admits : dotted_quad [49;48;46;48;48;49;46;50;53;53;46;48]%N.    (* "10.001.255.0" *)
+Example dotted_quad_example : dotted_quad [49;48;46;48;48;49;46;50;53;53;46;48]%N.    (* "10.001.255.0" *)
 Proof.
   exists [], [49;48]%N, [48;48]%N, [49]%N, [], [50;53;53]%N, [], [48]%N. unfold zeros. cbn [octet_core app]. unfold dig.
   split; [reflexivity|]. split; [constructor|]. split; [repeat constructor|]. split; [constructor|]. split; [constructor|].
@@ -222,4 +222,128 @@ Theorem ipv6_match_is_delimited (s : list chr) i c j c' :
 Proof.
   destruct generated_ipv6_pattern_shape as (core & E). rewrite E. intro H.
   destruct (delimited_match s cs9 _ i c j c' H) as (A & B & _). split; assumption.
+Qed.
+
+(* ======== the other half: a standalone dotted quad IS matched, as a whole (through the engine's completeness for anchor-free patterns, RxLang.lang_ms) ======== *)
+Lemma cr_in a b x : (a <= x <= b)%N -> in_cset x (cr a b) = true.
+Proof. intro H. unfold cr. cbn [in_cset existsb fst snd xorb]. rewrite orb_false_r. destruct (N.leb_spec a x), (N.leb_spec x b); cbn [andb]; try reflexivity; lia. Qed.
+Lemma lang_rep_chars g cs lo hi (t : list chr) : Forall (fun x => in_cset x cs = true) t -> lo <= length t -> (forall h, hi = Some h -> lo <= h -> length t <= h) ->
+  lang (Rep g (Chr cs) lo hi) t.
+Proof.
+  intros F L B. assert (E : t = concat (map (fun x => [x]) t)) by (clear; induction t as [|x t IH]; cbn [map concat app]; [reflexivity|now rewrite <- IH]).
+  rewrite E. constructor; [|now rewrite map_length|now rewrite map_length].
+  apply Forall_forall. intros u Hu. apply in_map_iff in Hu as (x & <- & Hx). constructor. rewrite Forall_forall in F. now apply F.
+Qed.
+Lemma lang_of_zeros z : zeros z -> lang Z0 z.
+Proof. intro H. apply lang_rep_chars; [|lia|discriminate]. eapply Forall_impl; [|exact H]. intros x ->. apply cr_in. lia. Qed.
+Lemma lang_opt_none g a : lang (Rep g a 0 (Some 1)) [].
+Proof. change (@nil chr) with (concat (@nil (list chr))). constructor; [constructor|cbn; lia|cbn; intros; lia]. Qed.
+Lemma lang_opt_some g a t : lang a t -> lang (Rep g a 0 (Some 1)) t.
+Proof. intro H. replace t with (concat [t]) by (cbn; apply app_nil_r). constructor; [repeat constructor; exact H|cbn; lia|cbn; intros h [= <-] _; lia]. Qed.
+Lemma lang_of_octet k o : octet_core o -> lang (OCT k) o.
+Proof.
+  unfold OCT, octet_core, dig. destruct o as [|a [|b [|c [|d o]]]]; try contradiction.
+  - intro H. apply LAltR. change [a] with ([] ++ [a]). constructor; [apply lang_opt_none|constructor; apply cr_in; lia].
+  - intros [Ha Hb]. apply LAltR. change [a; b] with ([a] ++ [b]). constructor; [|constructor; apply cr_in; lia].
+    apply lang_opt_some. constructor. apply LAltR. change [a] with ([] ++ [a]). constructor; [apply lang_opt_none|constructor; apply cr_in; lia].
+  - intros [(-> & Hb & Hc)|[(-> & Hb & Hc)|(-> & -> & Hc)]].
+    + apply LAltR. change [49%N; b; c] with ([49%N; b] ++ [c]). constructor; [|constructor; apply cr_in; lia].
+      apply lang_opt_some. constructor. apply LAltR. change [49%N; b] with ([49%N] ++ [b]). constructor; [|constructor; apply cr_in; lia].
+      apply lang_opt_some. constructor. apply cr_in. lia.
+    + apply LAltR. change [50%N; b; c] with ([50%N; b] ++ [c]). constructor; [|constructor; apply cr_in; lia].
+      apply lang_opt_some. constructor. apply LAltL. change [50%N; b] with ([50%N] ++ [b]). constructor; constructor; apply cr_in; lia.
+    + apply LAltL. change [50%N; 53%N; c] with ([50%N] ++ [53%N] ++ [c]). constructor; [constructor; apply cr_in; lia|]. constructor; constructor; apply cr_in; lia.
+Qed.
+Lemma lang_of_part z o : zeros z -> octet_core o -> lang (Grp 2 (Seq Z0 (Seq (Grp 3 (OCT 4)) (Chr (cr 46 46))))) (z ++ o ++ [46%N]).
+Proof. intros Hz Ho. constructor. constructor; [now apply lang_of_zeros|]. constructor; [constructor; now apply lang_of_octet|constructor; apply cr_in; lia]. Qed.
+Theorem dotted_quad_is_in_the_core_language t : dotted_quad t -> lang CORE t.
+Proof.
+  intros (z1 & o1 & z2 & o2 & z3 & o3 & z4 & o4 & -> & Z1 & Z2 & Z3 & Z4 & O1 & O2 & O3 & O4). unfold CORE.
+  replace ((z1 ++ o1 ++ [46%N]) ++ (z2 ++ o2 ++ [46%N]) ++ (z3 ++ o3 ++ [46%N]) ++ z4 ++ o4)
+    with (concat [z1 ++ o1 ++ [46%N]; z2 ++ o2 ++ [46%N]; z3 ++ o3 ++ [46%N]] ++ (z4 ++ o4)) by (cbn [concat]; rewrite app_nil_r, <- !app_assoc; reflexivity).
+  constructor.
+  - apply LRep; [|cbn; lia|cbn; intros h [= <-] _; lia].
+    constructor; [now apply lang_of_part|constructor; [now apply lang_of_part|constructor; [now apply lang_of_part|constructor]]].
+  - constructor; [now apply lang_of_zeros|constructor; now apply lang_of_octet].
+Qed.
+
+Lemma ms_LB (s : list chr) i c : (i = 0 \/ (1 <= i /\ exists x, nth_error s (i - 1) = Some x /\ in_cset x ENC = true)) -> In (i, c) (ms s LB i c).
+Proof.
+  intros [->|(Hi & x & Hx & Ex)]; unfold LB; cbn [ms]; apply in_or_app.
+  - left. cbn [Nat.leb Nat.sub Nat.eqb existsb fst xorb orb]. now left.
+  - right. replace (Nat.leb 1 i) with true by (symmetry; apply Nat.leb_le; exact Hi). rewrite Hx, Ex. cbn [existsb fst orb xorb].
+    replace (Nat.eqb (S (i - 1)) i) with true by (symmetry; apply Nat.eqb_eq; lia). now left.
+Qed.
+Lemma ms_LA (s : list chr) j c : (eol s j = true \/ exists x, nth_error s j = Some x /\ in_cset x ENC = true) -> In (j, c) (ms s LA j c).
+Proof.
+  intro H. unfold LA. cbn [ms].
+  assert (E : existsb (fun _ : nat * caps => true) ((match nth_error s j with Some x => if in_cset x ENC then [(S j, c)] else [] | None => [] end) ++ (if eol s j then [(j, c)] else [])) = true).
+  { destruct H as [H|(x & Hx & Ex)]; [rewrite H; rewrite existsb_app; cbn [existsb]; now rewrite orb_true_r|rewrite Hx, Ex; reflexivity]. }
+  rewrite E. now left.
+Qed.
+Lemma wfr_core : wfr CORE = true. Proof. reflexivity. Qed.
+Lemma pure_core : pure CORE = true. Proof. reflexivity. Qed.
+
+Theorem ipv4_token_is_matched (s : list chr) (t : list chr) i c :
+  dotted_quad t -> occ s t i ->
+  (i = 0 \/ (1 <= i /\ exists x, nth_error s (i - 1) = Some x /\ in_cset x ENC = true)) ->
+  (eol s (i + length t) = true \/ exists x, nth_error s (i + length t) = Some x /\ in_cset x ENC = true) ->
+  exists c', In (i + length t, c') (ms s IPV4_RX i c).
+Proof.
+  intros Q O B A. rewrite generated_ipv4_pattern_shape.
+  destruct (lang_ms s CORE pure_core wfr_core t i c (dotted_quad_is_in_the_core_language t Q) O) as (c1 & H1).
+  eexists. cbn [ms]. apply in_flat_map. exists (i, c). split; [now apply ms_LB|]. cbn [fst snd].
+  apply in_flat_map. eexists (i + length t, _). split.
+  - apply in_map_iff. exists (i + length t, c1). split; [reflexivity|exact H1].
+  - cbn [fst snd]. apply in_flat_map. eexists (i + length t, _). split; [now left|]. cbn [fst snd]. apply ms_LA. exact A.
+Qed.
+
+(* ... and every match starting at the token's first character covers exactly the token: the engine's first choice (what re.sub replaces) is the whole token *)
+Lemma nth_firstn_lt {A} : forall n k (l : list A), k < n -> nth_error (firstn n l) k = nth_error l k.
+Proof. induction n as [|n IH]; intros k l H; [lia|]. destruct l as [|y l]; [now destruct k|]. destruct k; cbn [firstn nth_error]; [reflexivity|apply IH; lia]. Qed.
+Lemma in_sub (s : list chr) i j k x : i <= k -> k < j -> j <= length s -> nth_error s k = Some x -> In x (sub s i j).
+Proof.
+  intros H1 H2 H3 Hx. unfold sub. apply (nth_error_In _ (k - i)). rewrite nth_firstn_lt by lia.
+  rewrite nth_error_skipn. now replace (i + (k - i)) with k by lia.
+Qed.
+Lemma nl_enclosing : in_cset 10%N ENC = true. Proof. reflexivity. Qed.
+Theorem ipv4_match_at_a_token_covers_exactly_the_token (s : list chr) (t : list chr) i c :
+  dotted_quad t -> occ s t i -> i <= length s ->
+  (eol s (i + length t) = true \/ exists x, nth_error s (i + length t) = Some x /\ in_cset x ENC = true) ->
+  forall j c', In (j, c') (ms s IPV4_RX i c) -> j = i + length t.
+Proof.
+  intros Q O Hi A j c' H.
+  pose proof (ms_den s _ _ _ _ _ H) as D. destruct (den_bounds s _ _ _ D) as [Hij Hj]. specialize (Hj Hi).
+  destruct (ipv4_match_is_a_whole_token s i c j c' Hi H) as (F & _ & R). rewrite Forall_forall in F.
+  pose proof (dotted_quad_chars t Q) as Ct. rewrite Forall_forall in Ct.
+  destruct (Nat.lt_trichotomy j (i + length t)) as [Hlt|[->|Hgt]]; [exfalso| reflexivity |exfalso].
+  - (* the match would end inside the token: the next character is a token character *)
+    destruct (nth_error t (j - i)) as [x|] eqn:Ex; [|apply nth_error_None in Ex; lia].
+    pose proof (O _ _ Ex) as Sx. replace (i + (j - i)) with j in Sx by lia.
+    pose proof (token_char_not_enclosing x (Ct x (nth_error_In _ _ Ex))) as Nx.
+    destruct R as [R|(y & Hy & Ey)]; [|congruence].
+    unfold eol, Rx.slen in R. apply orb_true_iff in R as [R|R]; [apply Nat.eqb_eq in R; assert (j < length s) by (apply nth_error_Some; congruence); lia|].
+    apply andb_true_iff in R as [_ R]. rewrite Sx in R. destruct x as [|p]; [discriminate|]. destruct p as [p|p|]; try discriminate; destruct p as [p|p|]; try discriminate;
+      destruct p as [p|p|]; try discriminate; destruct p as [p|p|]; try discriminate.
+  - (* the match would run past the token: it would contain the delimiter after the token *)
+    destruct A as [A|(y & Hy & Ey)].
+    + unfold eol, Rx.slen in A. apply orb_true_iff in A as [A|A]; [apply Nat.eqb_eq in A; lia|]. apply andb_true_iff in A as [A1 A2]. apply Nat.eqb_eq in A1.
+      destruct (nth_error s (i + length t)) as [y|] eqn:Hy; [|discriminate].
+      assert (y = 10%N) by (destruct y as [|p]; [discriminate|]; destruct p as [p|p|]; try discriminate; destruct p as [p|p|]; try discriminate;
+                            destruct p as [p|p|]; try discriminate; destruct p as [p|p|]; try discriminate; reflexivity). subst y.
+      pose proof (F _ (in_sub s i j (i + length t) 10%N ltac:(lia) Hgt Hj Hy)) as N10. rewrite nl_enclosing in N10. discriminate.
+    + pose proof (F _ (in_sub s i j (i + length t) y ltac:(lia) Hgt Hj Hy)) as Ny. congruence.
+Qed.
+
+Theorem ipv4_engine_replaces_the_whole_token (s : list chr) (t : list chr) i :
+  dotted_quad t -> occ s t i -> i <= length s ->
+  (i = 0 \/ (1 <= i /\ exists x, nth_error s (i - 1) = Some x /\ in_cset x ENC = true)) ->
+  (eol s (i + length t) = true \/ exists x, nth_error s (i + length t) = Some x /\ in_cset x ENC = true) ->
+  exists c', match_at s IPV4_RX i = Some (i + length t, c').
+Proof.
+  intros Q O Hi B A. destruct (ipv4_token_is_matched s t i [] Q O B A) as (c1 & H1).
+  unfold match_at. rewrite m_is_first_of_ms.
+  destruct (ms s IPV4_RX i []) as [|[j cj] l] eqn:E; [destruct H1|]. cbn [first_some].
+  assert (j = i + length t) by (apply (ipv4_match_at_a_token_covers_exactly_the_token s t i [] Q O Hi A j cj); rewrite E; now left).
+  subst j. now exists cj.
 Qed.
